@@ -133,6 +133,15 @@ impl Walker {
                         if let Some(f) = out.func {
                             let pre = Screen::observe(&self.vt);
                             let lines_pre = if self.record_lines { Some(all_lines(&self.vt)) } else { None };
+                            // the one-step spec indexes the observed screen at the observed
+                            // cursor: an observable state that is itself inconsistent cannot
+                            // satisfy any per-step property (and must not crash the spec)
+                            if pre.row >= pre.rows || pre.col > pre.cols || pre.cells.len() != pre.rows || pre.cells.iter().any(|r| r.len() != pre.cols) || (pre.cols, pre.rows) != (self.cols, self.rows) {
+                                return WalkEnd::Stopped(Verdict::fail(
+                                    "corrupt-state",
+                                    format!("before {:?}: the observable state is inconsistent (size() = {}x{}, last requested {}x{}, cursor ({},{}), view of {} rows)", f, pre.cols, pre.rows, self.cols, self.rows, pre.col, pre.row, pre.cells.len()),
+                                ));
+                            }
                             let mut exp = pre.clone();
                             let m_pre = self.modes.clone();
                             let was_alt = self.modes.alt;
